@@ -192,6 +192,61 @@ class GaussTilt(GaussRamp):
         return np.where(inside, lp, -np.inf)
 
 
+class GaussHalf(Gauss):
+    """Uniform prior on the upper half of the first axis only (zero prior where x0 is below the
+    middle of its range), mapped LINEARLY to the unit hypercube: the prior in the hypercube is
+    zero on half of the cube and the model says so in `log_prior_unit_hypercube`.  About half of
+    the samples of an importance-sampler run then carry a zero weight (log W = -inf) although
+    their likelihood is finite and as large as that of their neighbours."""
+
+    def log_prior(self, x):
+        lo, hi = self.bounds[self.names[0]]
+        lp = np.log(self.in_bounds(x), dtype="float64") + self._log_prior_const + np.log(2.0)
+        return np.where(x[self.names[0]] >= 0.5 * (lo + hi), lp, -np.inf)
+
+    def new_point(self, N=1):
+        from nessai.livepoint import numpy_array_to_live_points
+
+        u = np.random.rand(N, self.dims)
+        u[:, 0] = 0.5 + 0.5 * u[:, 0]
+        return numpy_array_to_live_points(self._lo + (self._hi - self._lo) * u, self.names)
+
+    def new_point_log_prob(self, x):
+        return self.log_prior(x)
+
+    def log_prior_unit_hypercube(self, x):
+        v = self.unstructured_view(x)
+        inside = ~np.any((v < 0) | (v >= 1), axis=-1)
+        return np.where(inside & (v[..., 0] >= 0.5), np.log(2.0), -np.inf)
+
+
+class GaussCorner(Gauss):
+    """Unit box, likelihood increasing towards the upper corner, and a user-defined initial design
+    for the importance sampler (`sample_unit_hypercube`) that is stratified and includes the end
+    points 0 and 1 of every axis.  A point with a coordinate exactly 1.0 is inside the (closed)
+    bounds but outside the half-open unit hypercube of `log_prior_unit_hypercube`: finite prior,
+    finite (and largest) likelihood, zero importance weight (log W = -inf)."""
+
+    def __init__(self, dims=2, **kw):
+        super().__init__(dims, lo=0.0, hi=1.0, **kw)
+
+    def log_likelihood(self, x):
+        out = np.zeros(x.size)
+        for n in self.names:
+            out = out + (x[n] - 1.0) * (x[n] - 1.0) * (-0.5 / 0.09)
+        return out
+
+    def sample_unit_hypercube(self, n=1):
+        from nessai.livepoint import numpy_array_to_live_points
+
+        n = int(n)
+        if n < 2:
+            u = np.random.rand(n, self.dims)
+        else:
+            u = np.stack([np.random.permutation(np.linspace(0.0, 1.0, n)) for _ in range(self.dims)], axis=1)
+        return numpy_array_to_live_points(u, self.names)
+
+
 class GaussZeros(Gauss):
     """`new_point` allocates its array with zeros (as user-written / bilby-style models do) instead
     of nessai's NaN placeholders: logP and logL of a fresh point are 0.0 until nessai fills them."""
@@ -331,6 +386,10 @@ def make(name="G2", **kw):
         return GaussBA(**kw)
     if name == "G2tilt":
         return GaussTilt(2, **kw)
+    if name == "G2half":
+        return GaussHalf(2, **kw)
+    if name == "G2corner":
+        return GaussCorner(2, **kw)
     if name == "G2zeros":
         return GaussZeros(2, **kw)
     if name == "G2edge":
